@@ -60,7 +60,7 @@ def canon_series(s):
     if isinstance(dt, pd.CategoricalDtype):
         labels, _ = canon_series(pd.Series(dt.categories))
         codes = np.asarray(s.cat.codes)
-        vals = [None if c < 0 else labels[c] for c in codes]
+        vals = [None if c < 0 else (labels[c] if c < len(labels) else ("code-out-of-range", int(c))) for c in codes]
         return vals, ("category", tuple(labels), bool(dt.ordered))
     if isinstance(dt, pd.DatetimeTZDtype):
         unit = dt.unit
